@@ -5,7 +5,7 @@ InvSeq == SetToSeq(Invocations(Pairs))
 \* sets are exported as sequences
 ASSUME JsonSerialize(IOEnv.JASM_OUT, [invocations |-> [n \in DOMAIN InvSeq |->
           [pat |-> InvSeq[n].pat, src |-> SetToSeq(InvSeq[n].src), all |-> InvSeq[n].all, addr |-> InvSeq[n].addr,
-           macros |-> InvSeq[n].macros, pair |-> InvSeq[n].pair, usage |-> UsageError(InvSeq[n])]]])
+           macros |-> InvSeq[n].macros, pair |-> InvSeq[n].pair, dbg |-> InvSeq[n].dbg, usage |-> UsageError(InvSeq[n])]]])
 VARIABLE x
 Init == x = 0
 Next == x' = x
